@@ -1067,6 +1067,34 @@ impl Transaction {
                 return false;
             }
 
+            if let Some(first_input) = self.from.first() {
+                // the staked inputs must be authorised by their owner
+                let signed = match &self.hash_for_signature {
+                    Some(hash_for_signature) => verify_signature(
+                        hash_for_signature,
+                        &self.signature,
+                        &first_input.public_key,
+                    ),
+                    None => false,
+                };
+                if !signed {
+                    error!("staking transaction is not signed by the owner of its inputs");
+                    return false;
+                }
+                if self
+                    .from
+                    .iter()
+                    .any(|slip| slip.public_key != first_input.public_key)
+                {
+                    error!("staking transaction spends inputs of more than one key");
+                    return false;
+                }
+            }
+            if self.total_out > self.total_in {
+                error!("staking transaction spends more than it has available");
+                return false;
+            }
+
             return true;
         }
 
